@@ -541,3 +541,25 @@ def m_sha256(engine, ctx, args, callee, frame):
     b = M.as_bytes(engine, args[0])
     n = ctx.concretize(b.len, 64, "hashed data length")
     return HashV("data", [b.byte(i) for i in range(n)])
+
+
+@model(r"^<\[u8; \d+\] as (Ord|PartialOrd)>::(cmp|partial_cmp)$|^<\[u8\] as (Ord|PartialOrd)>::(cmp|partial_cmp)$")
+def m_bytes_cmp(engine, ctx, args, callee, frame):
+    """ordering of two hash values / byte arrays.  Ideal leaf hashes are ordered by their identifiers (an arbitrary
+    but fixed injective order, which is all that can be said about the order of SHA-256 values)"""
+    a, b = deref(args[0]), deref(args[1])
+    if isinstance(a, HashV) and isinstance(b, HashV) and a.kind == "leaf" and b.kind == "leaf":
+        ax = a.a if z3.is_expr(a.a) else z3.BitVecVal(a.a, 16)
+        bx = b.a if z3.is_expr(b.a) else z3.BitVecVal(b.a, 16)
+        if ctx.branch(z3.ULT(ax, bx)):
+            r = -1
+        elif ctx.branch(ax == bx):
+            r = 0
+        else:
+            r = 1
+    elif isinstance(a, HashV) or isinstance(b, HashV):
+        raise Untranslatable("ordering of a hash term and raw bytes")
+    else:
+        r = M.compare_values(engine, ctx, a, b)
+    o = M.ordering(r)
+    return some(o) if callee.endswith("partial_cmp") else o
